@@ -4,11 +4,17 @@
 use crate::common::*;
 use crate::fw_c01::T0;
 use crate::fwc::*;
+use autd3::prelude::Segment;
 
+/// One letter of a history.  In every spec a **SysTime transition value is a delta**: `apply` adds the session
+/// clock at send time, so that the same letter is "20 ms ahead" (accepted) or "1 us ahead" (missed) wherever it
+/// stands in a history; `desc()` (case identity, violation keys) shows the delta, the op line the absolute value.
 #[derive(Clone)]
 pub enum Step {
     Send(Spec),
     Abort(usize, Spec),
+    /// two datagrams in one frame (`send pair a | b`)
+    Pair(Spec, Spec),
     Clk(u64),
     Read,
     Thermo(bool),
@@ -19,17 +25,81 @@ impl Step {
         match self {
             Step::Send(s) => s.text(),
             Step::Abort(k, s) => format!("abort{k}:{}", s.text()),
+            Step::Pair(a, b) => format!("pair:{}|{}", a.text(), b.text()),
             Step::Clk(d) => format!("clk+{d}"),
             Step::Read => "read".into(),
             Step::Thermo(b) => format!("thermo{}", *b as u8),
         }
     }
+    fn specs(&self) -> Vec<&Spec> {
+        match self {
+            Step::Send(s) | Step::Abort(_, s) => vec![s],
+            Step::Pair(a, b) => vec![a, b],
+            _ => vec![],
+        }
+    }
+}
+
+fn at(t: (u8, u64), now: u64) -> (u8, u64) {
+    if t.0 == 0x01 { (t.0, now + t.1) } else { t }
+}
+/// the spec that is really sent: SysTime deltas resolved against the session clock
+fn resolve(spec: &Spec, now: u64) -> Spec {
+    let mut s = spec.clone();
+    match &mut s {
+        Spec::Gain { tr, .. } | Spec::Mod { tr, .. } | Spec::ModRaw { tr, .. } | Spec::Foci { tr, .. } | Spec::GainStm { tr, .. } => *tr = tr.map(|t| at(t, now)),
+        Spec::SwapGain(_, t) | Spec::SwapMod(_, t) | Spec::SwapFoci(_, t) | Spec::SwapGainStm(_, t) => *t = at(*t, now),
+        _ => {}
+    }
+    s
+}
+
+fn spec_tr(s: &Spec) -> Option<Tr> {
+    match s {
+        Spec::Gain { tr, .. } | Spec::Mod { tr, .. } | Spec::ModRaw { tr, .. } | Spec::Foci { tr, .. } | Spec::GainStm { tr, .. } => Some(*tr),
+        Spec::SwapGain(_, t) | Spec::SwapMod(_, t) | Spec::SwapFoci(_, t) | Spec::SwapGainStm(_, t) => Some(Some(*t)),
+        _ => None,
+    }
+}
+fn spec_rep(s: &Spec) -> Option<u16> {
+    match s {
+        Spec::Mod { rep, .. } | Spec::ModRaw { rep, .. } | Spec::Foci { rep, .. } | Spec::GainStm { rep, .. } => Some(*rep),
+        _ => None,
+    }
+}
+/// evidence counters of the input dimensions of one letter (transition mode, loop behaviour, tuple, clock)
+fn count_dims(out: &mut Out, st: &Step) {
+    match st {
+        Step::Pair(..) => out.count("dim:pair"),
+        Step::Abort(..) => out.count("dim:cut-send"),
+        Step::Clk(_) => out.count("dim:clk"),
+        _ => {}
+    }
+    for s in st.specs() {
+        if let Some(tr) = spec_tr(s) {
+            out.count(match tr {
+                None => "dim:tr=none",
+                Some((0xFF, _)) => "dim:tr=immediate",
+                Some((0xF0, _)) => "dim:tr=ext",
+                Some((0x00, _)) => "dim:tr=syncidx",
+                Some((0x02, _)) => "dim:tr=gpio",
+                Some((0x01, d)) if d < 10_000_000 => "dim:tr=systime-missed",
+                Some((0x01, _)) => "dim:tr=systime",
+                Some(_) => "dim:tr=other",
+            });
+        }
+        if let Some(rep) = spec_rep(s) {
+            out.count(if rep == 0xFFFF { "dim:loop=infinite" } else { "dim:loop=finite" });
+        }
+    }
 }
 
 fn apply(s: &mut Session, st: &Step) -> String {
+    let now = s.w.t;
     match st {
-        Step::Send(x) => s.send(x),
-        Step::Abort(k, x) => s.abort(*k, x),
+        Step::Send(x) => s.send(&resolve(x, now)),
+        Step::Abort(k, x) => s.abort(*k, &resolve(x, now)),
+        Step::Pair(a, b) => s.pair(&resolve(a, now), &resolve(b, now)),
         Step::Clk(d) => {
             let t = s.w.t + d;
             s.clk(t)
@@ -76,23 +146,135 @@ fn silencer_guard(w: &World) -> Option<String> {
     None
 }
 
-fn all_obs(w: &World) -> Vec<String> {
-    w.cpus.iter().map(|c| ALL_RES.iter().map(|r| format!("{}|{}", res_obs(c, *r), res_dyn(c, *r))).collect::<Vec<_>>().join(";")).collect()
+/// device 0, one entry per resource of `ALL_RES`
+fn res_vec(w: &World) -> Vec<String> {
+    ALL_RES.iter().map(|r| format!("{}|{}", res_obs(&w.cpus[0], *r), res_dyn(&w.cpus[0], *r))).collect()
 }
 
-fn c08_alphabet(thorough: bool) -> Vec<Step> {
+/// what the guard compares, taken from the implementation's public read-back (device 0) before a step
+struct Limits {
+    strict: bool,
+    i: u16,
+    p: u16,
+    stm_div: [u16; 2],
+    mod_div: [u16; 2],
+    stm_req: usize,
+    mod_req: usize,
+}
+fn limits(w: &World) -> Option<Limits> {
+    let cpu = &w.cpus[0];
+    let f = cpu.fpga();
+    guarded(|| {
+        let st = f.silencer_completion_steps();
+        Limits {
+            strict: cpu.silencer_strict_mode(),
+            i: st.intensity.get(),
+            p: st.phase.get(),
+            stm_div: [f.stm_freq_division(Segment::S0), f.stm_freq_division(Segment::S1)],
+            mod_div: [f.modulation_freq_division(Segment::S0), f.modulation_freq_division(Segment::S1)],
+            stm_req: f.req_stm_segment() as usize,
+            mod_req: f.req_modulation_segment() as usize,
+        }
+    })
+    .ok()
+}
+/// is there, by the read-back `l` taken before the step, a reason for answering InvalidSilencerSettings to `spec`?
+/// (the exact converse of the guard: the configuration that would be in force after accepting `spec` violates the
+/// strict limits).  Also counts the boundary cases `division = steps` and `division = steps - 1`.
+fn refusal_reason(out: &mut Out, l: &Limits, spec: &Spec) -> bool {
+    let cur_stm = l.stm_div[l.stm_req];
+    let cur_mod = l.mod_div[l.mod_req];
+    // (new STM division, new modulation division, intensity steps, phase steps) after the step
+    let (sd, md, i, p, strict) = match spec {
+        Spec::SilSteps(i, p, st) => (cur_stm, cur_mod, *i, *p, *st),
+        Spec::Foci { div, .. } | Spec::GainStm { div, .. } => (*div, cur_mod, l.i, l.p, l.strict),
+        Spec::Mod { div, .. } | Spec::ModRaw { div, .. } => (cur_stm, *div, l.i, l.p, l.strict),
+        Spec::SwapFoci(s, _) | Spec::SwapGainStm(s, _) | Spec::SwapGain(s, _) => (l.stm_div[*s as usize & 1], cur_mod, l.i, l.p, l.strict),
+        Spec::SwapMod(s, _) => (cur_stm, l.mod_div[*s as usize & 1], l.i, l.p, l.strict),
+        _ => return false,
+    };
+    if !strict {
+        return false;
+    }
+    let need = i.max(p);
+    if sd == need || md == i {
+        out.count("boundary:division=steps");
+    }
+    if sd as u32 + 1 == need as u32 || md as u32 + 1 == i as u32 {
+        out.count("boundary:division=steps-1");
+    }
+    if i > p && sd >= p && sd < i {
+        out.count("boundary:stm-division-between-phase-and-intensity-steps");
+    }
+    sd < need || md < i
+}
+
+/// an accepted Silencer configuration must be the one in force (device 0); `None` = holds
+fn silencer_in_force(w: &World, spec: &Spec) -> Option<String> {
+    let cpu = &w.cpus[0];
+    let f = cpu.fpga();
+    let r = guarded(|| match spec {
+        Spec::SilSteps(i, p, strict) => {
+            let st = f.silencer_completion_steps();
+            let got = (st.intensity.get(), st.phase.get(), cpu.silencer_strict_mode(), f.silencer_fixed_completion_steps_mode());
+            if got != (*i, *p, *strict, true) {
+                return Some(format!("accepted, but the device reports steps {}/{} strict={} fixed-completion-steps-mode={}", got.0, got.1, got.2 as u8, got.3 as u8));
+            }
+            None
+        }
+        Spec::SilRate(i, p) => {
+            let ur = f.silencer_update_rate();
+            let got = (ur.intensity.get(), ur.phase.get(), f.silencer_fixed_update_rate_mode());
+            if got != (*i, *p, true) {
+                return Some(format!("accepted, but the device reports update rate {}/{} fixed-update-rate-mode={}", got.0, got.1, got.2 as u8));
+            }
+            None
+        }
+        _ => None,
+    });
+    match r {
+        Ok(x) => x,
+        Err(p) => Some(format!("read-back panicked: {p}")),
+    }
+}
+
+const IMM: (u8, u64) = (0xFF, 0);
+const SYNC: (u8, u64) = (0x00, 0);
+const GPIO0: (u8, u64) = (0x02, 0);
+const EXT: (u8, u64) = (0xF0, 0);
+/// SysTime 20 ms after the send (beyond the 10 ms margin: accepted) / 1 us after the send (missed)
+const SYS_OK: (u8, u64) = (0x01, 20_000_000);
+const SYS_MISS: (u8, u64) = (0x01, 1_000);
+
+struct Letter {
+    st: Step,
+    /// letter of the alphabet as it was before the coverage review (its depth-3 sample is kept as it was)
+    old: bool,
+}
+
+/// can this letter put a strict (or a non-trivial non-strict) configuration in force?  A history without such a
+/// letter starts lax (1/1, not strict) and stays lax: guard and refusal oracle are vacuous on it.
+fn relevant(st: &Step) -> bool {
+    st.specs().iter().any(|s| match s {
+        Spec::Clear => true,
+        Spec::SilSteps(i, p, strict) => *strict || *i > 1 || *p > 1,
+        _ => false,
+    })
+}
+
+fn c08_alphabet(thorough: bool) -> Vec<Letter> {
     let mut v = vec![];
     // divisions on both sides of the silencer steps used below (5/20 and 10/40)
-    for &(seg, div, tr) in &[(0u8, 8u16, None), (1, 8, None), (0, 30, Some((0xFFu8, 0u64))), (1, 30, Some((0xFF, 0))), (1, 50, None), (0, 50, Some((0xFF, 0)))] {
+    for &(seg, div, tr) in &[(0u8, 8u16, None), (1, 8, None), (0, 30, Some(IMM)), (1, 30, Some(IMM)), (1, 50, None), (0, 50, Some(IMM))] {
         v.push(Step::Send(Spec::Foci { n: 1, seg, tr, rep: 0xFFFF, div, ss: 21760, size: 2, seed: 1 }));
     }
-    for &(seg, div, tr) in &[(0u8, 15u16, Some((0xFFu8, 0u64))), (1, 15, None), (1, 45, Some((0xFF, 0)))] {
+    for &(seg, div, tr) in &[(0u8, 15u16, Some(IMM)), (1, 15, None), (1, 45, Some(IMM))] {
         v.push(Step::Send(Spec::GainStm { mode: 0, seg, tr, rep: 0xFFFF, div, size: 2, seed: 2 }));
     }
-    for &(seg, tr) in &[(0u8, Some((0xFFu8, 0u64))), (1, None), (1, Some((0xFF, 0)))] {
+    for &(seg, tr) in &[(0u8, Some(IMM)), (1, None), (1, Some(IMM))] {
         v.push(Step::Send(Spec::Gain { seg, tr, seed: 3 }));
     }
-    for &(seg, div, tr) in &[(0u8, 4u16, None), (1, 4, Some((0xFFu8, 0u64))), (0, 7, Some((0xFF, 0))), (1, 12, None), (1, 12, Some((0xFF, 0)))] {
+    for &(seg, div, tr) in &[(0u8, 4u16, None), (1, 4, Some(IMM)), (0, 7, Some(IMM)), (1, 12, None), (1, 12, Some(IMM))] {
         v.push(Step::Send(Spec::Mod { seg, tr, rep: 0xFFFF, div, n: 2, seed: 4 }));
     }
     v.extend([
@@ -100,25 +282,69 @@ fn c08_alphabet(thorough: bool) -> Vec<Step> {
         Step::Send(Spec::SilSteps(10, 40, true)),
         Step::Send(Spec::SilSteps(1, 1, false)),
         Step::Send(Spec::SilRate(256, 256)),
-        Step::Send(Spec::SwapFoci(0, (0xFF, 0))),
-        Step::Send(Spec::SwapFoci(1, (0xFF, 0))),
-        Step::Send(Spec::SwapGainStm(1, (0xFF, 0))),
-        Step::Send(Spec::SwapGain(1, (0xFF, 0))),
-        Step::Send(Spec::SwapMod(1, (0xFF, 0))),
-        Step::Send(Spec::SwapMod(0, (0xFF, 0))),
+        Step::Send(Spec::SwapFoci(0, IMM)),
+        Step::Send(Spec::SwapFoci(1, IMM)),
+        Step::Send(Spec::SwapGainStm(1, IMM)),
+        Step::Send(Spec::SwapGain(1, IMM)),
+        Step::Send(Spec::SwapMod(1, IMM)),
+        Step::Send(Spec::SwapMod(0, IMM)),
         Step::Send(Spec::Clear),
     ]);
     if thorough {
         v.extend([
             // multi-frame sends cut after the first frame (BEGIN delivered, END never)
-            Step::Abort(1, Spec::Foci { n: 1, seg: 1, tr: Some((0xFF, 0)), rep: 0xFFFF, div: 8, ss: 21760, size: 200, seed: 5 }),
-            Step::Abort(1, Spec::Mod { seg: 1, tr: Some((0xFF, 0)), rep: 0xFFFF, div: 4, n: 1000, seed: 6 }),
-            Step::Abort(1, Spec::GainStm { mode: 0, seg: 1, tr: Some((0xFF, 0)), rep: 0xFFFF, div: 8, size: 5, seed: 7 }),
+            Step::Abort(1, Spec::Foci { n: 1, seg: 1, tr: Some(IMM), rep: 0xFFFF, div: 8, ss: 21760, size: 200, seed: 5 }),
+            Step::Abort(1, Spec::Mod { seg: 1, tr: Some(IMM), rep: 0xFFFF, div: 4, n: 1000, seed: 6 }),
+            Step::Abort(1, Spec::GainStm { mode: 0, seg: 1, tr: Some(IMM), rep: 0xFFFF, div: 8, size: 5, seed: 7 }),
             Step::Abort(1, Spec::Foci { n: 1, seg: 1, tr: None, rep: 0xFFFF, div: 8, ss: 21760, size: 200, seed: 8 }),
             Step::Send(Spec::SilSteps(20, 5, true)),
-            Step::Send(Spec::SwapGain(0, (0xFF, 0))),
+            Step::Send(Spec::SwapGain(0, IMM)),
         ]);
     }
+    let mut v: Vec<Letter> = v.into_iter().map(|st| Letter { st, old: true }).collect();
+
+    // ---- letters added by the coverage review (same grammar; the model needs no change)
+    let foci = |seg: u8, tr: Tr, rep: u16, div: u16| Step::Send(Spec::Foci { n: 1, seg, tr, rep, div, ss: 21760, size: 2, seed: 1 });
+    let gstm = |seg: u8, tr: Tr, rep: u16, div: u16| Step::Send(Spec::GainStm { mode: 0, seg, tr, rep, div, size: 2, seed: 2 });
+    let md = |seg: u8, tr: Tr, rep: u16, div: u16| Step::Send(Spec::Mod { seg, tr, rep, div, n: 2, seed: 4 });
+    let new = vec![
+        // gap 1: strict steps equal to / one above divisions of the data letters (mod 4, 7; STM 8, 15, 30)
+        Step::Send(Spec::SilSteps(7, 30, true)),
+        Step::Send(Spec::SilSteps(8, 31, true)),
+        Step::Send(Spec::SilSteps(4, 15, true)),
+        // gap 4: intensity steps above phase steps (STM divisions 8 and 15 lie in [phase, intensity): only the clause
+        // `stm division < intensity steps` refuses them; 15 = 16 - 1), a small modulation division on the idle segment
+        Step::Send(Spec::SilSteps(16, 5, true)),
+        md(1, None, 0xFFFF, 4),
+        // gap 5: a non-strict configuration with non-trivial steps
+        Step::Send(Spec::SilSteps(10, 40, false)),
+        // gap 2: finite loops with SyncIdx / GPIO / SysTime (ahead and missed), Ext, swaps with those modes, a clock step
+        foci(1, Some(SYNC), 0, 8),
+        foci(1, Some(GPIO0), 0, 50),
+        foci(0, Some(SYS_OK), 0, 30),
+        foci(1, Some(SYS_MISS), 0, 8),
+        gstm(1, Some(SYNC), 0, 15),
+        gstm(1, Some(SYS_MISS), 0, 45),
+        md(1, Some(SYNC), 0, 4),
+        md(1, Some(SYS_MISS), 0, 7),
+        md(0, Some(GPIO0), 0, 12),
+        foci(1, Some(EXT), 0xFFFF, 30),
+        foci(1, None, 0, 8),
+        md(1, None, 0, 4),
+        Step::Send(Spec::SwapFoci(1, SYNC)),
+        Step::Send(Spec::SwapFoci(1, SYS_MISS)),
+        Step::Send(Spec::SwapMod(1, SYNC)),
+        Step::Send(Spec::SwapMod(1, SYS_MISS)),
+        Step::Clk(100_000_000),
+        // gap 6: two datagrams in one frame, the way users change silencer and data together
+        Step::Pair(Spec::SilSteps(10, 40, true), Spec::Foci { n: 1, seg: 0, tr: Some(IMM), rep: 0xFFFF, div: 50, ss: 21760, size: 2, seed: 1 }),
+        Step::Pair(Spec::Foci { n: 1, seg: 0, tr: Some(IMM), rep: 0xFFFF, div: 50, ss: 21760, size: 2, seed: 1 }, Spec::SilSteps(10, 40, true)),
+        Step::Pair(Spec::SilSteps(10, 40, true), Spec::Foci { n: 1, seg: 1, tr: Some(IMM), rep: 0xFFFF, div: 8, ss: 21760, size: 2, seed: 1 }),
+        Step::Pair(Spec::Mod { seg: 0, tr: Some(IMM), rep: 0xFFFF, div: 4, n: 2, seed: 4 }, Spec::SilSteps(5, 20, true)),
+        Step::Pair(Spec::SilSteps(1, 1, false), Spec::Mod { seg: 1, tr: Some(IMM), rep: 0xFFFF, div: 4, n: 2, seed: 4 }),
+        Step::Pair(Spec::SilSteps(5, 20, true), Spec::SwapFoci(1, IMM)),
+    ];
+    v.extend(new.into_iter().map(|st| Letter { st, old: false }));
     v
 }
 
@@ -127,21 +353,66 @@ fn run_seq_c08(out: &mut Out, seq: &[Step], tag: &str) {
     s.send(&Spec::Clear);
     // start from the laxest configuration so that small divisions can be installed first
     let mut verdict: Option<String> = None;
+    let mut cut_seen = false;
     for (k, st) in seq.iter().enumerate() {
-        let before = all_obs(&s.w);
+        let before = res_vec(&s.w);
+        let lim = limits(&s.w);
         let ans = apply(&mut s, st);
         if s.dead {
             break; // aborts are C19's subject
         }
+        count_dims(s.out, st);
         if let Some(m) = silencer_guard(&s.w) {
             verdict = Some(format!("after step {} (`{}`): {m}", k + 1, st.desc()));
             break;
         }
-        if ans.contains("err:fw:142") && all_obs(&s.w) != before {
-            verdict = Some(format!("step {} (`{}`) was refused with InvalidSilencerSettings but changed the observable state", k + 1, st.desc()));
-            break;
+        let refused = ans.contains("err:fw:142");
+        if refused {
+            // a refused datagram changes nothing; in a tuple the first member may have been accepted before the
+            // second was refused, so only what the first member does not address must be unchanged
+            let may_change = if let Step::Pair(a, _) = st { touches(a) } else { vec![] };
+            let after = res_vec(&s.w);
+            if let Some(r) = (0..ALL_RES.len()).find(|&r| before[r] != after[r] && !may_change.contains(&ALL_RES[r])) {
+                verdict = Some(format!("step {} (`{}`) was refused with InvalidSilencerSettings but changed the observable state ({:?})", k + 1, st.desc(), ALL_RES[r]));
+                break;
+            }
         }
-        s.out.count(if ans.starts_with("R=ok") { "accepted" } else if ans.contains("err:fw:142") { "refused:silencer" } else { "refused:other" });
+        // the refusal is exact: by the read-back before the step there is a reason for it (not after a cut send: the
+        // recorded finding F8b leaves the CPU's belief ahead of the read-back; not for tuples: the second member is
+        // judged in the state the first one left)
+        if let (Some(l), false, Step::Send(x) | Step::Abort(_, x)) = (&lim, cut_seen, st) {
+            let reason = refusal_reason(s.out, l, x);
+            if refused && !reason {
+                verdict = Some(format!(
+                    "step {} (`{}`) was refused with InvalidSilencerSettings although the configuration read back before it (strict={} steps {}/{}, STM divisions {:?} requested S{}, modulation divisions {:?} requested S{}) allows it",
+                    k + 1, st.desc(), l.strict as u8, l.i, l.p, l.stm_div, l.stm_req, l.mod_div, l.mod_req
+                ));
+                break;
+            }
+        }
+        if ans.starts_with("R=ok") {
+            // the last Silencer datagram of an accepted send is the configuration in force
+            if let Some(x) = st.specs().iter().rev().find(|x| matches!(x, Spec::SilSteps(..) | Spec::SilRate(..))) {
+                if let Some(m) = silencer_in_force(&s.w, x) {
+                    verdict = Some(format!("step {} (`{}`): {m}", k + 1, st.desc()));
+                    break;
+                }
+            }
+        }
+        if matches!(st, Step::Abort(..)) {
+            cut_seen = true;
+        }
+        s.out.count(if ans.starts_with("R=ok") || ans.starts_with("S ") {
+            "accepted"
+        } else if refused {
+            "refused:silencer"
+        } else if ans.contains("err:fw:139") {
+            "refused:miss-transition-time"
+        } else if ans.contains("err:fw:143") {
+            "refused:transition-mode"
+        } else {
+            "refused:other"
+        });
     }
     let log = s.log.clone();
     let desc: Vec<String> = seq.iter().map(|x| x.desc()).collect();
@@ -153,7 +424,12 @@ fn run_seq_c08(out: &mut Out, seq: &[Step], tag: &str) {
         // a cut send followed by SwapSegment::Gain to the half-written segment is a different root cause
         // (change_gain_segment trusts the CPU's stale mode/cycle copies and does not run the guard)
         let via_gain_swap = what.contains("`swapgain");
-        let key = if cut && via_gain_swap {
+        // a tuple whose first member is a transition-carrying multi-frame STM: the second member is packed into the
+        // BEGIN frame and runs while the belief is ahead of the request (same window as F8b, but no send is cut: F8d)
+        let tuple_window = !cut && seq.iter().any(|s| matches!(s, Step::Pair(..)));
+        let key = if tuple_window {
+            "C08:tuple-member-runs-between-begin-and-end".to_string()
+        } else if cut && via_gain_swap {
             "C08:cut-send-then-gain-swap-skips-guard".to_string()
         } else if cut {
             "C08:cut-send-leaves-belief-ahead-of-request".to_string()
@@ -170,19 +446,22 @@ pub fn run_c08(args: &Args) {
     let mut rng = Rng::new(args.seed ^ 0xC08);
     let alpha = c08_alphabet(thorough);
     let lax = Step::Send(Spec::SilSteps(1, 1, false));
+    let foci = |seg: u8, tr: Tr, rep: u16, div: u16| Step::Send(Spec::Foci { n: 1, seg, tr, rep, div, ss: 21760, size: 2, seed: 1 });
+    let md = |seg: u8, tr: Tr, rep: u16, div: u16| Step::Send(Spec::Mod { seg, tr, rep, div, n: 2, seed: 4 });
+    let sil = |i: u16, p: u16, strict: bool| Step::Send(Spec::SilSteps(i, p, strict));
 
     // corpus: F8 (Gain to the idle segment without transition, then a strict silencer) and F8b (aborted send)
     run_seq_c08(
         &mut out,
-        &[lax.clone(), Step::Send(Spec::Foci { n: 1, seg: 0, tr: Some((0xFF, 0)), rep: 0xFFFF, div: 40, ss: 21760, size: 2, seed: 1 }), Step::Send(Spec::Gain { seg: 1, tr: None, seed: 3 }), Step::Send(Spec::SilSteps(10, 80, true))],
+        &[lax.clone(), Step::Send(Spec::Foci { n: 1, seg: 0, tr: Some(IMM), rep: 0xFFFF, div: 40, ss: 21760, size: 2, seed: 1 }), Step::Send(Spec::Gain { seg: 1, tr: None, seed: 3 }), Step::Send(Spec::SilSteps(10, 80, true))],
         "F8",
     );
     run_seq_c08(
         &mut out,
         &[
             lax.clone(),
-            Step::Send(Spec::Foci { n: 1, seg: 0, tr: Some((0xFF, 0)), rep: 0xFFFF, div: 8, ss: 21760, size: 2, seed: 1 }),
-            Step::Abort(1, Spec::Foci { n: 1, seg: 1, tr: Some((0xFF, 0)), rep: 0xFFFF, div: 50, ss: 21760, size: 200, seed: 5 }),
+            Step::Send(Spec::Foci { n: 1, seg: 0, tr: Some(IMM), rep: 0xFFFF, div: 8, ss: 21760, size: 2, seed: 1 }),
+            Step::Abort(1, Spec::Foci { n: 1, seg: 1, tr: Some(IMM), rep: 0xFFFF, div: 50, ss: 21760, size: 200, seed: 5 }),
             Step::Send(Spec::SilSteps(10, 40, true)),
         ],
         "F8b",
@@ -195,127 +474,244 @@ pub fn run_c08(args: &Args) {
             lax.clone(),
             Step::Abort(1, Spec::Foci { n: 1, seg: 1, tr: None, rep: 0xFFFF, div: 40, ss: 21760, size: 200, seed: 5 }),
             Step::Send(Spec::SilSteps(10, 80, true)),
-            Step::Send(Spec::SwapGain(1, (0xFF, 0))),
+            Step::Send(Spec::SwapGain(1, IMM)),
         ],
         "F8c",
     );
-    out.count_n("corpus", 3);
+    // coverage review, gap 3: a refused strict configuration must restore the CPU's private guard copies (phase and
+    // intensity limits); seen only through a later probe write that lies between the old and the refused limits
+    run_seq_c08(&mut out, &[lax.clone(), sil(5, 20, true), foci(0, Some(IMM), 0xFFFF, 30), sil(10, 40, true), foci(1, Some(IMM), 0xFFFF, 30)], "rollback-phase");
+    run_seq_c08(&mut out, &[lax.clone(), sil(5, 20, true), md(0, Some(IMM), 0xFFFF, 7), sil(10, 40, true), md(1, Some(IMM), 0xFFFF, 7)], "rollback-intensity");
+    run_seq_c08(&mut out, &[lax.clone(), sil(5, 20, true), foci(0, Some(IMM), 0xFFFF, 30), sil(10, 40, false), sil(10, 40, true), sil(5, 20, false), foci(1, Some(IMM), 0xFFFF, 8)], "rollback-strict-flag");
+    // gap 2: the CPU's segment belief follows every transition-carrying write (finite loop + SyncIdx: request and
+    // belief move to S1 although S0 keeps playing), also when the transition time is missed (written to the idle
+    // segment first, then swapped in with a SysTime that is already past: request and belief move, then the error)
+    run_seq_c08(&mut out, &[lax.clone(), foci(1, Some(SYNC), 0, 8), sil(10, 40, true)], "belief-syncidx");
+    run_seq_c08(&mut out, &[lax.clone(), md(1, Some(GPIO0), 0, 4), sil(10, 40, true)], "belief-gpio-mod");
+    run_seq_c08(&mut out, &[lax.clone(), foci(1, None, 0, 8), Step::Send(Spec::SwapFoci(1, SYS_MISS)), sil(10, 40, true)], "belief-missed-systime-swap");
+    run_seq_c08(&mut out, &[lax.clone(), md(1, None, 0, 4), Step::Send(Spec::SwapMod(1, SYS_MISS)), sil(10, 40, true)], "belief-missed-systime-swapmod");
+    run_seq_c08(&mut out, &[lax.clone(), foci(1, Some(SYS_MISS), 0, 8), sil(10, 40, true), Step::Clk(100_000_000), sil(5, 20, true)], "belief-missed-systime-write");
+    // gap 4: the swap guards judge the *target* segment (idle data written without transition, strict steps above
+    // its division, then the swap), for every swap kind
+    run_seq_c08(&mut out, &[lax.clone(), md(1, None, 0xFFFF, 4), sil(5, 20, true), Step::Send(Spec::SwapMod(1, IMM))], "swap-guard-mod");
+    run_seq_c08(&mut out, &[lax.clone(), foci(1, None, 0xFFFF, 8), sil(10, 40, true), Step::Send(Spec::SwapFoci(1, IMM))], "swap-guard-foci");
+    run_seq_c08(&mut out, &[lax.clone(), Step::Send(Spec::GainStm { mode: 0, seg: 1, tr: None, rep: 0xFFFF, div: 15, size: 2, seed: 2 }), sil(16, 5, true), Step::Send(Spec::SwapGainStm(1, IMM))], "swap-guard-gainstm");
+    run_seq_c08(&mut out, &[lax.clone(), md(1, None, 0, 4), sil(5, 20, true), Step::Send(Spec::SwapMod(1, SYNC))], "swap-guard-mod-syncidx");
+    // F8d (found by the send-level proof, Props/C08 `f8d_*`): no send is cut. A 2-frame GainSTM -> S1 carrying a
+    // transition leaves ~100 free bytes in its BEGIN frame, so the second member of a tuple is executed between BEGIN
+    // (belief := S1) and END (request := S1).
+    // (a) the second member is refused: `Sender::send` stops, the belief stays on S1 while S0 is requested
+    run_seq_c08(
+        &mut out,
+        &[
+            Step::Send(Spec::Foci { n: 1, seg: 0, tr: Some((0xFF, 0)), rep: 0xFFFF, div: 40, ss: 21760, size: 2, seed: 1 }),
+            Step::Pair(Spec::GainStm { mode: 0, seg: 1, tr: Some((0xFF, 0)), rep: 0xFFFF, div: 100, size: 2, seed: 2 }, Spec::SilSteps(10, 200, true)),
+            Step::Send(Spec::SilSteps(10, 80, true)),
+        ],
+        "F8d-refused",
+    );
+    // (b) every send accepted: the second member moves belief and request back to S0, END then requests S1
+    run_seq_c08(
+        &mut out,
+        &[
+            Step::Pair(Spec::GainStm { mode: 0, seg: 1, tr: Some((0xFF, 0)), rep: 0xFFFF, div: 100, size: 2, seed: 2 }, Spec::SwapGain(0, (0xFF, 0))),
+            Step::Send(Spec::SilSteps(10, 200, true)),
+        ],
+        "F8d-accepted",
+    );
+    out.count_n("corpus", 17);
 
-    // bounded-exhaustive: lax start, then every sequence of `depth` letters
-    let depth = 3;
-    let letters: Vec<&Step> = if thorough { alpha.iter().collect() } else { alpha.iter().step_by(1).collect() };
-    let mut idx = vec![0usize; depth];
-    let quick_stride = if thorough { 1 } else { 3 }; // quick: every third sequence (offset by seed), all in thorough
-    let mut counter = 0u64;
-    loop {
-        if counter % quick_stride == (args.seed % quick_stride) {
-            let mut seq = vec![lax.clone()];
-            seq.extend(idx.iter().map(|&i| letters[i].clone()));
-            run_seq_c08(&mut out, &seq, "exh");
+    // bounded-exhaustive: lax start, then every sequence of two letters (both tiers) ...
+    let n = alpha.len();
+    for i in 0..n {
+        for j in 0..n {
+            run_seq_c08(&mut out, &[lax.clone(), alpha[i].st.clone(), alpha[j].st.clone()], "d2");
+            out.count("seq:depth2");
         }
-        counter += 1;
-        let mut p = depth;
-        loop {
-            if p == 0 {
-                break;
+    }
+    // ... and of three letters of which at least one can put a non-lax configuration in force (the others are
+    // vacuous for guard and refusal oracle).  Sequences over the pre-review letters: every third in quick (as before,
+    // offset by the seed), all in thorough; sequences with a new letter: every 16th in quick, every 4th in thorough.
+    let (stride_old, stride_new) = if thorough { (1u64, 4u64) } else { (3, 16) };
+    let (mut c_old, mut c_new) = (0u64, 0u64);
+    for i in 0..n {
+        for j in 0..n {
+            for k in 0..n {
+                let ls = [&alpha[i], &alpha[j], &alpha[k]];
+                let old = ls.iter().all(|l| l.old);
+                let rel = ls.iter().any(|l| relevant(&l.st));
+                let take = if old {
+                    c_old += 1;
+                    (c_old - 1) % stride_old == args.seed % stride_old
+                } else if rel {
+                    c_new += 1;
+                    (c_new - 1) % stride_new == args.seed % stride_new
+                } else {
+                    false
+                };
+                if take && rel {
+                    run_seq_c08(&mut out, &[lax.clone(), ls[0].st.clone(), ls[1].st.clone(), ls[2].st.clone()], "exh");
+                    out.count(if old { "seq:depth3-pre-review-letters" } else { "seq:depth3-with-new-letter" });
+                }
             }
-            p -= 1;
-            idx[p] += 1;
-            if idx[p] < letters.len() {
-                break;
-            }
-            idx[p] = 0;
-            if p == 0 {
-                p = usize::MAX;
-                break;
-            }
-        }
-        if p == usize::MAX {
-            break;
         }
     }
     // random deeper sequences
+    let steps: Vec<Step> = alpha.iter().map(|l| l.st.clone()).collect();
     for _ in 0..(if thorough { 3000 } else { 300 }) {
         let n = rng.range(4, 12) as usize;
-        let mut seq = vec![if rng.chance(1, 2) { lax.clone() } else { rng.pick(&alpha).clone() }];
+        let mut seq = vec![if rng.chance(1, 2) { lax.clone() } else { rng.pick(&steps).clone() }];
         for _ in 0..n {
-            seq.push(rng.pick(&alpha).clone());
+            seq.push(rng.pick(&steps).clone());
         }
         run_seq_c08(&mut out, &seq, "rand");
+        out.count("seq:random");
     }
     out.sample("reset 1 … / send clear / send silsteps 1 1 0 / send foci 1 0 255:0 65535 40 21760 2 1 / send gain 1 - 3 / send silsteps 10 80 1".into());
     out.finish(
         "fw_c08",
-        "a case = one operation sequence (Clear, lax silencer, then letters of the C08 alphabet incl. cut sends); after every step the strict-silencer guard is evaluated on the implementation, and a send refused with InvalidSilencerSettings must leave every observable unchanged; all sequences are distinct",
+        "a case = one operation sequence (Clear, lax silencer, then letters of the C08 alphabet: writes/swaps with every transition mode (None, Immediate, Ext, SyncIdx, GPIO, SysTime ahead and missed), infinite and finite loops, strict and non-strict silencer steps equal to / one above the data divisions, tuples (Silencer, data) in one frame, clock steps, cut sends); all depth-2 sequences, the depth-3 sequences that contain a non-lax silencer letter or Clear (strided in quick), random deeper ones. Oracles on the implementation's read-back after every step: the strict-silencer guard; a send refused with InvalidSilencerSettings leaves every observable unchanged (tuple: everything its first member does not address) and has a reason by the read-back taken before it; an accepted Silencer is the configuration in force. All new letters use the existing op-line grammar (model unchanged); dim:* / boundary:* / seq:* counters show the new dimensions; sequences are distinct (a corpus case may recur in the enumeration)",
     );
 }
 
 // ------------------------------------------------------------------------------------------------ C19
 
-fn c19_alphabet(t_now: u64) -> Vec<Step> {
-    let mut v = vec![];
-    let trs: Vec<Tr> = vec![None, Some((0xFF, 0)), Some((0xF0, 0)), Some((0x00, 0)), Some((0x02, 1)), Some((0x01, t_now + 20_000_000)), Some((0x01, t_now + 1_000))];
-    for (k, tr) in trs.iter().enumerate() {
-        let seg = (k % 2) as u8;
-        let rep = if k % 3 == 0 { 0xFFFF } else { (k % 3 - 1) as u16 };
-        v.push(Step::Send(Spec::Foci { n: 1 + k % 8, seg, tr: *tr, rep, div: 0xFFFF - (k as u16 % 2) * 0xFF00, ss: 21760, size: 2 + k, seed: k as u64 }));
-        v.push(Step::Send(Spec::Foci { n: 8 - k % 8, seg: 1 - seg, tr: *tr, rep, div: 512, ss: 21760, size: 3, seed: 40 + k as u64 }));
-        v.push(Step::Send(Spec::GainStm { mode: (k % 3) as u8, seg, tr: *tr, rep, div: 300, size: 2 + k % 5, seed: 20 + k as u64 }));
-        v.push(Step::Send(Spec::Mod { seg: 1 - seg, tr: *tr, rep, div: 10 + 100 * (k as u16 % 2), n: 2 + 3 * k, seed: 30 + k as u64 }));
-        if let Some(t) = tr {
-            v.push(Step::Send(Spec::SwapMod(seg, *t)));
-            v.push(Step::Send(Spec::SwapFoci(1 - seg, *t)));
-            v.push(Step::Send(Spec::SwapGainStm(seg, *t)));
-            v.push(Step::Send(Spec::SwapGain(1 - seg, *t)));
+/// number of alphabet variants: the same letter position carries, from variant to variant, another GPIO pin,
+/// another SysTime delta on the same side of the margin, the other segment, another finite repeat count / N / mode
+const VARIANTS: usize = 4;
+
+/// The light letters.  Transition mode, loop behaviour, datagram kind and segment are independent dimensions:
+/// every (kind, transition class, infinite/finite) triple is a letter, `v` rotates the rest.
+fn c19_alphabet(v: usize) -> Vec<Step> {
+    let mut out = vec![];
+    let pin = |k: usize| ((k + v) % 4) as u64;
+    // SysTime deltas relative to the clock at send time (margin 10 ms): two that are missed, three that are accepted
+    let sys_miss = (0x01u8, [1_000u64, 9_999_999][v % 2]);
+    let sys_ok = (0x01u8, [10_000_000u64, 20_000_000, 2_000_000_000, 20_000_000][v % 4]);
+    let fin = [0u16, 1, 0, 3][v % 4];
+    let trs = |k: usize| -> Vec<Tr> { vec![None, Some(IMM), Some(EXT), Some(SYNC), Some((0x02, pin(k))), Some(sys_ok), Some(sys_miss)] };
+    for t in 0..7 {
+        for r in 0..2 {
+            let k = 2 * t + r;
+            let tr = trs(k)[t];
+            let rep = if r == 0 { 0xFFFF } else { fin };
+            let seg = ((t + r + v) % 2) as u8;
+            out.push(Step::Send(Spec::Foci {
+                n: 1 + (k + 3 * v) % 8,
+                seg,
+                tr,
+                rep,
+                div: [0xFFFF, 0xFF, 512, 40][(k + v) % 4],
+                ss: 21760,
+                size: 2 + (k + v) % 7,
+                seed: k as u64,
+            }));
+            out.push(Step::Send(Spec::GainStm { mode: ((k + v) % 3) as u8, seg: 1 - seg, tr, rep, div: 300, size: 2 + (k + v) % 5, seed: 20 + k as u64 }));
+            out.push(Step::Send(Spec::Mod { seg: ((t + v) % 2) as u8, tr, rep, div: 10 + 100 * ((k + v) as u16 % 2), n: 2 + 3 * k, seed: 30 + k as u64 }));
+        }
+        // Gain with every transition mode (the driver accepts Immediate only; the others are answered at pack time)
+        out.push(Step::Send(Spec::Gain { seg: ((t + v) % 2) as u8, tr: trs(t)[t], seed: 9 }));
+        if let Some(x) = trs(t + 1)[t] {
+            let seg = ((t + v) % 2) as u8;
+            out.push(Step::Send(Spec::SwapMod(seg, x)));
+            out.push(Step::Send(Spec::SwapFoci(1 - seg, x)));
+            out.push(Step::Send(Spec::SwapGainStm(seg, x)));
+            out.push(Step::Send(Spec::SwapGain(1 - seg, x)));
         }
     }
-    // finite-loop data written to the idle segment without a transition (to be swapped in later)
-    for seg in [0u8, 1] {
-        v.push(Step::Send(Spec::Mod { seg, tr: None, rep: 0, div: 10, n: 6, seed: 60 }));
-        v.push(Step::Send(Spec::Foci { n: 2, seg, tr: None, rep: 1, div: 512, ss: 21760, size: 3, seed: 61 }));
-        v.push(Step::Send(Spec::GainStm { mode: 0, seg, tr: None, rep: 2, div: 300, size: 3, seed: 62 }));
-    }
-    // maximal sizes: every write page of both memories is used up to its last entry (the shared write-page registers
-    // are left at their highest values)
-    v.extend([
-        Step::Send(Spec::GainStm { mode: 0, seg: 1, tr: None, rep: 0xFFFF, div: 300, size: 1024, seed: 63 }),
-        Step::Send(Spec::GainStm { mode: 2, seg: 0, tr: Some((0xFF, 0)), rep: 0xFFFF, div: 300, size: 1024, seed: 64 }),
-        Step::Send(Spec::Foci { n: 1, seg: 0, tr: None, rep: 0xFFFF, div: 512, ss: 21760, size: 65536, seed: 65 }),
-        Step::Send(Spec::Foci { n: 8, seg: 1, tr: Some((0xFF, 0)), rep: 0xFFFF, div: 512, ss: 21760, size: 8192, seed: 66 }),
-        Step::Send(Spec::Mod { seg: 1, tr: None, rep: 0xFFFF, div: 10, n: 65536, seed: 67 }),
-    ]);
-    v.extend([
-        Step::Send(Spec::Gain { seg: 1, tr: Some((0xFF, 0)), seed: 9 }),
-        Step::Send(Spec::Gain { seg: 0, tr: None, seed: 9 }),
-        Step::Send(Spec::GpioIn(0b0010)),
-        Step::Send(Spec::GpioIn(0)),
+    // every GPIO input pin, alone and together
+    out.extend([Step::Send(Spec::GpioIn(0b0010)), Step::Send(Spec::GpioIn(1 << (v % 4))), Step::Send(Spec::GpioIn(0xF)), Step::Send(Spec::GpioIn(0))]);
+    // configuration datagrams: every kind the SDK has
+    out.extend([
         Step::Send(Spec::SilSteps(1, 1, false)),
         Step::Send(Spec::SilRate(1, 1)),
+        Step::Send(Spec::SilSteps(10, 40, true)),
         Step::Send(Spec::Clear),
         Step::Send(Spec::Reads(true)),
-        Step::Abort(1, Spec::Foci { n: 2, seg: 1, tr: Some((0x00, 0)), rep: 0, div: 600, ss: 21760, size: 300, seed: 77 }),
-        Step::Abort(2, Spec::Mod { seg: 1, tr: Some((0xFF, 0)), rep: 0xFFFF, div: 10, n: 3000, seed: 78 }),
+        Step::Send(Spec::Reads(false)),
+        Step::Send(Spec::Debug([0x21u64 << 56 | [0u64, 3, 65535, 9][v % 4], 0x51u64 << 56 | [65535u64, 0, 7, 1][v % 4], 0x10u64 << 56, 0xF0u64 << 56 | 1])),
+        Step::Send(Spec::Debug([0xF0u64 << 56, 0x20u64 << 56, 0x50u64 << 56, 0x52u64 << 56])),
+        Step::Send(Spec::Pwe(100 + v as u64)),
+        Step::Send(Spec::PweDefault),
+        Step::Send(Spec::PhaseCorr(200 + v as u64)),
+        Step::Send(Spec::CpuGpio([0xA0u8, 0x20, 0x80, 0][v % 4])),
+        Step::Send(Spec::Fan(v % 2 == 0)),
+        Step::Send(Spec::Sync),
+        Step::Send(Spec::FirmInfo(1 + (v as u8 % 5))),
+        Step::Send(Spec::FirmInfo(6)),
         Step::Thermo(true),
         Step::Thermo(false),
     ]);
-    v
+    // cut sends: every multi-frame kind, GainSTM in every mode, both segments, with and without transition, cut after
+    // the first frame, in the middle and before the last frame, and right after a GainSTM write-page change (64 gains)
+    out.extend([
+        Step::Abort(1, Spec::Foci { n: 2, seg: 1, tr: Some(SYNC), rep: 0, div: 600, ss: 21760, size: 300, seed: 77 }),
+        Step::Abort(2, Spec::Mod { seg: 1, tr: Some(IMM), rep: 0xFFFF, div: 10, n: 3000, seed: 78 }),
+        Step::Abort(1, Spec::Foci { n: 1, seg: 1, tr: Some(IMM), rep: 0xFFFF, div: 512, ss: 21760, size: 200, seed: 5 }),
+        Step::Abort(1, Spec::Mod { seg: 1, tr: Some(IMM), rep: 0xFFFF, div: 10, n: 1000, seed: 6 }),
+        Step::Abort(1, Spec::GainStm { mode: 0, seg: 1, tr: Some(IMM), rep: 0xFFFF, div: 300, size: 5, seed: 7 }),
+        Step::Abort(1, Spec::Foci { n: 1, seg: 1, tr: None, rep: 0xFFFF, div: 512, ss: 21760, size: 200, seed: 8 }),
+        Step::Abort(1 + v % 2, Spec::GainStm { mode: 1, seg: 0, tr: None, rep: 0xFFFF, div: 300, size: 9, seed: 79 }),
+        Step::Abort(2 + v % 3, Spec::GainStm { mode: 2, seg: 0, tr: Some(IMM), rep: 0xFFFF, div: 300, size: 21, seed: 80 }),
+        Step::Abort(2, Spec::Foci { n: 1 + v % 2, seg: 0, tr: Some(IMM), rep: 0xFFFF, div: 512, ss: 21760, size: 200, seed: 81 }),
+        Step::Abort(4, Spec::Mod { seg: 0, tr: None, rep: fin, div: 10, n: 3000, seed: 82 }),
+        Step::Abort(64 + v % 3, Spec::GainStm { mode: 0, seg: (v % 2) as u8, tr: Some(IMM), rep: 0xFFFF, div: 300, size: 100, seed: 83 }),
+    ]);
+    // two datagrams in one frame: both swap chains set in one frame, two STM writes sharing the write registers,
+    // multi-frame members whose later frames carry both, Clear next to anything
+    out.extend([
+        Step::Pair(Spec::Mod { seg: 1, tr: Some(IMM), rep: 0xFFFF, div: 10, n: 5, seed: 90 }, Spec::Foci { n: 3, seg: 1, tr: Some(IMM), rep: 0xFFFF, div: 512, ss: 21760, size: 4, seed: 91 }),
+        Step::Pair(Spec::Mod { seg: 1, tr: Some(SYNC), rep: fin, div: 10, n: 7, seed: 92 }, Spec::GainStm { mode: (v % 3) as u8, seg: 1, tr: Some((0x02, pin(0))), rep: fin, div: 300, size: 3, seed: 93 }),
+        Step::Pair(Spec::Foci { n: 2, seg: 0, tr: None, rep: 0xFFFF, div: 512, ss: 21760, size: 100, seed: 94 }, Spec::Foci { n: 5, seg: 1, tr: Some(IMM), rep: 0xFFFF, div: 512, ss: 21760, size: 40, seed: 95 }),
+        Step::Pair(Spec::Foci { n: 1, seg: 1, tr: Some(sys_ok), rep: fin, div: 512, ss: 21760, size: 200, seed: 96 }, Spec::Mod { seg: 1, tr: Some(sys_ok), rep: fin, div: 10, n: 1000, seed: 97 }),
+        Step::Pair(Spec::SwapMod(1, IMM), Spec::SwapFoci(1, IMM)),
+        Step::Pair(Spec::SwapMod((v % 2) as u8, SYNC), Spec::SwapGainStm(1, sys_ok)),
+        Step::Pair(Spec::Clear, Spec::Foci { n: 8, seg: 1, tr: Some(IMM), rep: 0xFFFF, div: 512, ss: 21760, size: 3, seed: 98 }),
+        Step::Pair(Spec::Mod { seg: 1, tr: Some(IMM), rep: 0xFFFF, div: 10, n: 9, seed: 99 }, Spec::Clear),
+        // a large first member: the second slot starts far into the frame
+        Step::Pair(Spec::Gain { seg: 1, tr: Some(IMM), seed: 10 }, Spec::SwapMod(1, IMM)),
+        Step::Pair(Spec::PhaseCorr(201), Spec::Mod { seg: (v % 2) as u8, tr: Some(IMM), rep: 0xFFFF, div: 10, n: 40, seed: 89 }),
+    ]);
+    out
+}
+
+/// Letters that are expensive for the model (maximal sizes: every write page of both memories is used up to its last
+/// entry, the shared write-page registers are left at their highest values; cuts right after a FociSTM / modulation
+/// write-page change).  They meet a sample of the light letters instead of all of them.
+fn c19_heavy() -> Vec<Step> {
+    vec![
+        Step::Send(Spec::GainStm { mode: 0, seg: 1, tr: None, rep: 0xFFFF, div: 300, size: 1024, seed: 63 }),
+        Step::Send(Spec::GainStm { mode: 2, seg: 0, tr: Some(IMM), rep: 0xFFFF, div: 300, size: 1024, seed: 64 }),
+        Step::Send(Spec::Foci { n: 1, seg: 0, tr: None, rep: 0xFFFF, div: 512, ss: 21760, size: 65536, seed: 65 }),
+        Step::Send(Spec::Foci { n: 8, seg: 1, tr: Some(IMM), rep: 0xFFFF, div: 512, ss: 21760, size: 8192, seed: 66 }),
+        Step::Send(Spec::Mod { seg: 1, tr: None, rep: 0xFFFF, div: 10, n: 65536, seed: 67 }),
+        Step::Abort(56, Spec::Foci { n: 1, seg: 0, tr: Some(IMM), rep: 0xFFFF, div: 512, ss: 21760, size: 5000, seed: 68 }),
+        Step::Abort(55, Spec::Mod { seg: 0, tr: Some(IMM), rep: 0xFFFF, div: 10, n: 40000, seed: 69 }),
+    ]
 }
 
 const ADVANCES: [u64; 6] = [0, 1_000, 25_000 * 512, 1_000_000, 100_000_000, 3_000_000_000];
 
 fn run_seq_c19(out: &mut Out, seq: &[Step], advs: &[u64], tag: &str) {
-    let read_early = tag != "d2" && tag != "rand" || READ_EARLY.load(std::sync::atomic::Ordering::Relaxed);
+    let read_early = tag != "d2" && tag != "rand" && tag != "heavy" || READ_EARLY.load(std::sync::atomic::Ordering::Relaxed);
     let mut s = Session::new(out, 1, T0);
     s.send(&Spec::Clear);
     s.send(&Spec::SilSteps(1, 1, false));
     let mut verdict = None;
     let mut at_line = 0u64;
     for (k, st) in seq.iter().enumerate() {
-        apply(&mut s, st);
+        let ans = apply(&mut s, st);
+        count_dims(s.out, st);
+        for x in st.specs() {
+            s.out.count(&format!("kind:{}", x.kind()));
+        }
+        if ans.starts_with("R=err:fw:") {
+            s.out.count(&format!("ack:{}", ans[9..].split(' ').next().unwrap_or("")));
+        }
         // the current output is also read straight after a send, before the clock moves on
         // (thorough and corpus cases: always; quick: every other step)
         let mut r = String::new();
-        if !s.dead && matches!(st, Step::Send(_) | Step::Abort(..)) && (read_early || k % 2 == 1) {
+        if !s.dead && matches!(st, Step::Send(_) | Step::Abort(..) | Step::Pair(..)) && (read_early || k % 2 == 1) {
             r = s.read();
         }
         if !s.dead && !r.contains('P') {
@@ -359,7 +755,11 @@ pub fn run_c19(args: &Args) {
     let thorough = args.tier == "thorough";
     READ_EARLY.store(thorough, std::sync::atomic::Ordering::Relaxed);
     let mut rng = Rng::new(args.seed ^ 0xC19);
-    let alpha = c19_alphabet(T0);
+    let alphas: Vec<Vec<Step>> = (0..VARIANTS).map(c19_alphabet).collect();
+    let heavy = c19_heavy();
+    let n = alphas[0].len();
+    debug_assert!(alphas.iter().all(|a| a.len() == n));
+    let seed = args.seed as usize;
 
     // corpus: F15 (pending SyncIdx then Immediate), F16 (far focus), F17 (stale cycle with more foci per pattern)
     run_seq_c19(
@@ -408,41 +808,103 @@ pub fn run_c19(args: &Args) {
     );
     // `zero_sound_speed_reachable`: a device sound speed below 7.8 mm/s is packed as 0; the firmware divides by it
     run_seq_c19(&mut out, &[Step::Send(Spec::Foci { n: 1, seg: 0, tr: Some((0xFF, 0)), rep: 0xFFFF, div: 40, ss: 0, size: 2, seed: 4 })], &[1_000_000], "zero-ss");
-    out.count_n("corpus", 5);
+    // coverage review, gap 2: SysTime transitions that are accepted deep in a history (relative to the clock at send
+    // time) and fire in a swap chain that carries the start offset / start lap of an earlier GPIO transition:
+    // S1 entered by GPIO at pattern 500 of 1000, back to S0, a shorter finite loop to S1 at SysTime now+20 ms
+    // (fires at another index), back to S0 and once more with SysTime at the margin, each followed over its end
+    for (tag, kind) in [("systime-after-gpio-stm", 0), ("systime-after-gpio-mod", 1)] {
+        let w = |tr: (u8, u64), size: usize, seed: u64| -> Step {
+            if kind == 0 {
+                Step::Send(Spec::Foci { n: 1, seg: 1, tr: Some(tr), rep: 2, div: 10, ss: 21760, size, seed })
+            } else {
+                Step::Send(Spec::Mod { seg: 1, tr: Some(tr), rep: 2, div: 10, n: size, seed })
+            }
+        };
+        let back = if kind == 0 { Step::Send(Spec::SwapGain(0, IMM)) } else { Step::Send(Spec::SwapMod(0, IMM)) };
+        run_seq_c19(
+            &mut out,
+            &[w((0x02, 3), 1000, 1), Step::Send(Spec::GpioIn(0b1000)), back.clone(), w((0x01, 20_000_000), 10, 2), back.clone(), w((0x01, 10_000_000), 7, 3), back.clone(), w((0x01, 9_999_999), 7, 3)],
+            &[0, 125_000_000, 1_000, 30_000_000, 0, 12_800_000, 3_000_000_000, 0],
+            tag,
+        );
+    }
+    // gap 6: mode / cycle mismatch left by a cut send (F17 family): a GainSTM cut after its BEGIN frame has switched
+    // the playing segment to gain mode while the cycle register still holds the 65536 patterns of the FociSTM before;
+    // the same with a cut FociSTM of 8 foci per pattern over a long GainSTM
+    run_seq_c19(
+        &mut out,
+        &[Step::Send(Spec::Foci { n: 1, seg: 0, tr: Some(IMM), rep: 0xFFFF, div: 40, ss: 21760, size: 65536, seed: 2 }), Step::Abort(1, Spec::GainStm { mode: 0, seg: 0, tr: None, rep: 0xFFFF, div: 300, size: 5, seed: 7 })],
+        &[0, 1_500_000_000],
+        "cut-gainstm-over-long-foci",
+    );
+    run_seq_c19(
+        &mut out,
+        &[Step::Send(Spec::GainStm { mode: 2, seg: 0, tr: Some(IMM), rep: 0xFFFF, div: 300, size: 1024, seed: 64 }), Step::Abort(1, Spec::Foci { n: 8, seg: 0, tr: None, rep: 0xFFFF, div: 512, ss: 21760, size: 200, seed: 8 })],
+        &[0, 1_500_000_000],
+        "cut-foci-over-long-gainstm",
+    );
+    out.count_n("corpus", 9);
 
-    // bounded-exhaustive depth 2 (quick: strided) / depth 2 full + depth 3 strided (thorough)
-    let n = alpha.len();
+    // bounded-exhaustive depth 2 over the light letters (quick: every 4th pair, offset by the seed; thorough: all);
+    // the variant of each letter rotates with its position so that all variants meet
+    let d2_stride = if thorough { 1 } else { 4 };
     for i in 0..n {
         for j in 0..n {
-            if !thorough && (i * n + j) as u64 % 4 != args.seed % 4 {
+            if (i * n + j + seed) % d2_stride != 0 {
                 continue;
             }
             let advs = [ADVANCES[(i + j) % 6], ADVANCES[(i + 2 * j + 1) % 6]];
-            run_seq_c19(&mut out, &[alpha[i].clone(), alpha[j].clone()], &advs, "d2");
+            let (a, b) = (&alphas[(i + j + seed) % VARIANTS][i], &alphas[(i + 2 * j + 1 + seed) % VARIANTS][j]);
+            run_seq_c19(&mut out, &[a.clone(), b.clone()], &advs, "d2");
+        }
+    }
+    // every heavy letter before and after a sample of the light letters
+    let per_heavy = if thorough { 60 } else { 8 };
+    for (h, hl) in heavy.iter().enumerate() {
+        for q in 0..per_heavy {
+            let j = (h * 17 + q * (n / per_heavy).max(1) + seed) % n;
+            let l = &alphas[(h + q + seed) % VARIANTS][j];
+            let advs = [ADVANCES[(h + q) % 6], ADVANCES[(h + 2 * q + 1) % 6]];
+            run_seq_c19(&mut out, &[hl.clone(), l.clone()], &advs, "heavy");
+            run_seq_c19(&mut out, &[l.clone(), hl.clone()], &advs, "heavy");
         }
     }
     if thorough {
+        // depth 3, strided
+        let mut c = 0usize;
         for i in 0..n {
             for j in 0..n {
                 for k in 0..n {
-                    if ((i * n + j) * n + k) as u64 % 37 != args.seed % 37 {
+                    c += 1;
+                    if (c + seed) % 151 != 0 {
                         continue;
                     }
                     let advs = [ADVANCES[(i + k) % 6], ADVANCES[(j + 1) % 6], ADVANCES[(i + j + k) % 6]];
-                    run_seq_c19(&mut out, &[alpha[i].clone(), alpha[j].clone(), alpha[k].clone()], &advs, "d3");
+                    let v = (i + j + k + seed) % VARIANTS;
+                    run_seq_c19(&mut out, &[alphas[v][i].clone(), alphas[(v + 1) % VARIANTS][j].clone(), alphas[(v + 2) % VARIANTS][k].clone()], &advs, "d3");
                 }
             }
         }
     }
-    for _ in 0..(if thorough { 2000 } else { 200 }) {
+    for _ in 0..(if thorough { 3000 } else { 300 }) {
         let len = rng.range(3, 30) as usize;
-        let seq: Vec<Step> = (0..len).map(|_| rng.pick(&alpha).clone()).collect();
+        let mut seq: Vec<Step> = (0..len)
+            .map(|_| {
+                let v = rng.below(VARIANTS as u64) as usize;
+                rng.pick(&alphas[v]).clone()
+            })
+            .collect();
+        // one sequence in five carries a heavy letter
+        if rng.chance(1, 5) {
+            let at = rng.below(len as u64) as usize;
+            seq[at] = rng.pick(&heavy).clone();
+        }
         let advs: Vec<u64> = (0..len).map(|_| *rng.pick(&ADVANCES)).collect();
         run_seq_c19(&mut out, &seq, &advs, "rand");
     }
     out.sample("reset 1 … / send clear / send silsteps 1 1 0 / send foci 1 1 0:0 0 65535 21760 2 1 / clk / read / send foci 1 1 255:0 0 65535 21760 2 1 / clk / read".into());
     out.finish(
         "fw_c19",
-        "a case = one sequence over the extended alphabet (every transition mode incl. SysTime relative to the controlled clock, GPIO toggles, Ext, cut sends, thermal sensor), each step followed by a clock advance from {0,1us,one sample,1ms,100ms,3s} and a read of drives()/modulation(); distinct by sequence",
+        "a case = one sequence over the extended alphabet, each step followed by a clock advance from {0,1us,one sample,1ms,100ms,3s} and a read of drives()/modulation(). Letters: FociSTM/GainSTM/Modulation x every transition class (None, Immediate, Ext, SyncIdx, GPIO pin 0-3, SysTime 10 ms/20 ms/2 s ahead of the clock at send time, SysTime 1 us / 10 ms - 1 ns ahead = missed) x infinite/finite loop, Gain and the four SwapSegment kinds with every transition, GPIO inputs per pin, every configuration datagram (Debug, PWE, PhaseCorrection, CpuGPIO, ForceFan, Synchronize, FirmwareInfo, ReadsFPGAState on/off, strict/lax silencer), cut sends (every kind, GainSTM modes 0-2, both segments, first/middle/last-but-one frame, after a write-page change), tuples (two datagrams in one frame), thermal sensor; four variants of every letter rotate segment, pin, delta, repeat count, N and mode. Maximal-size letters meet a sample of the others. All letters use the existing op-line grammar (model unchanged); dim:* / kind:* / ack:* counters show the dimensions; cases are counted distinct by sequence",
     );
 }
